@@ -4,9 +4,11 @@
 package wrk
 
 import (
+	"bytes"
 	"fmt"
 	"os"
 	"regexp"
+	"runtime"
 	"sort"
 	"strconv"
 	"strings"
@@ -23,15 +25,37 @@ import (
 // reports a violation.
 func StartWatchdog(limit time.Duration) {
 	go func() {
+		runtime.LockOSThread()
+		self := syscall.Gettid()
 		last := engine.Progress()
 		lastChange := time.Now()
 		cpuAtChange := cpuSeconds()
+		asleep := 0
 		for {
 			time.Sleep(250 * time.Millisecond)
 			p := engine.Progress()
 			if p != last || !busy.Load() || engine.Idle.Get() {
 				last, lastChange, cpuAtChange = p, time.Now(), cpuSeconds()
+				asleep = 0
 				continue
+			}
+			// A process in which no thread but this one is running or
+			// runnable, sample after sample, is not starved but blocked: a
+			// task parked by the scheduler at a yield point holds a real lock
+			// that the running task wants (synchronisation the simulator
+			// does not own). Nothing will ever happen: give up after 8 s.
+			if othersAsleep(self) {
+				asleep++
+			} else {
+				asleep = 0
+			}
+			if asleep >= 32 {
+				note := fmt.Sprintf("blocked: no scheduling step and every thread asleep for %.0fs (a lock the simulator does not own is held across a yield point)", time.Since(lastChange).Seconds())
+				if emitWatchdog != nil {
+					emitWatchdog(curSeed.Load(), note)
+				}
+				fmt.Fprintf(os.Stderr, "watchdog: seed %d: %s\n", curSeed.Load(), note)
+				os.Exit(2)
 			}
 			// Judge by the CPU time this process consumed since the last
 			// step (library code spinning without reaching a yield point),
@@ -49,6 +73,34 @@ func StartWatchdog(limit time.Duration) {
 			}
 		}
 	}()
+}
+
+// othersAsleep reports whether every thread of this process other than
+// `self` is sleeping (state S in /proc): none running, runnable or in
+// uninterruptible wait.
+func othersAsleep(self int) bool {
+	ents, err := os.ReadDir("/proc/self/task")
+	if err != nil {
+		return false
+	}
+	for _, e := range ents {
+		if e.Name() == strconv.Itoa(self) {
+			continue
+		}
+		b, err := os.ReadFile("/proc/self/task/" + e.Name() + "/stat")
+		if err != nil {
+			continue // the thread exited
+		}
+		// "<pid> (<comm>) <state> ..."
+		i := bytes.LastIndexByte(b, ')')
+		if i < 0 || i+2 >= len(b) {
+			return false
+		}
+		if st := b[i+2]; st != 'S' {
+			return false
+		}
+	}
+	return true
 }
 
 func cpuSeconds() float64 {
